@@ -40,6 +40,13 @@ M = [
  ("exit_zero_on_errors", "C17", "cmd/goose/main.go", "\tif someError {\n\t\tos.Exit(1)\n\t}", "\tif someError && ignoreErrors {\n\t\tos.Exit(1)\n\t}"),
  ("global_pkg_cache", "C06", "goose.go", "func NewPkgCtx(pkg *packages.Package, tr TranslationConfig) Ctx {\n", "var translated = map[string]int{}\n\nfunc NewPkgCtx(pkg *packages.Package, tr TranslationConfig) Ctx {\n\ttranslated[pkg.PkgPath]++\n"),
  ("worker_shared_slot", "C06", "interface.go", "\t\t\tfiles[i] = f\n\t\t\terrs[i] = err", "\t\t\tfiles[i] = f\n\t\t\terrs[len(errs)-1-i] = err"),
+ ("decls_emit_before_deps", "C04", "interface.go", "\t\tfor _, dep := range declDeps[id] {\n\t\t\tdepid, ok := nameDecls[dep]\n\t\t\tif ok {\n\t\t\t\tprocessDecl(depid, dep)\n\t\t\t}\n\t\t}\n\n\t\tif lastFile != id.fileIdx && ident != \"\" {\n\t\t\tf := fs[id.fileIdx]\n\t\t\tdecls = append(decls,\n\t\t\t\tcoq.NewComment(fmt.Sprintf(\"%s from %s\", ident, f.Name())))\n\t\t\tlastFile = id.fileIdx\n\t\t}\n\n\t\tnewDecls, newImports := filterImports(declGroups[id])\n\t\tdecls = append(decls, newDecls...)\n\t\timports = append(imports, newImports...)\n", "\t\tif lastFile != id.fileIdx && ident != \"\" {\n\t\t\tf := fs[id.fileIdx]\n\t\t\tdecls = append(decls,\n\t\t\t\tcoq.NewComment(fmt.Sprintf(\"%s from %s\", ident, f.Name())))\n\t\t\tlastFile = id.fileIdx\n\t\t}\n\n\t\tnewDecls, newImports := filterImports(declGroups[id])\n\t\tdecls = append(decls, newDecls...)\n\t\timports = append(imports, newImports...)\n\n\t\tfor _, dep := range declDeps[id] {\n\t\t\tdepid, ok := nameDecls[dep]\n\t\t\tif ok {\n\t\t\t\tprocessDecl(depid, dep)\n\t\t\t}\n\t\t}\n"),
+ ("decls_no_generated_mark", "C04", "interface.go", "\t\tgenerated[id] = true\n\n\t\tfor _, dep", "\t\tfor _, dep"),
+ ("decls_skip_first_decl", "C04", "interface.go", "\t\tfor di := range f.Ast.Decls {\n\t\t\tprocessDecl(declId{fi, di}, \"\")", "\t\tfor di := range f.Ast.Decls {\n\t\t\tif di == 0 && fi > 0 {\n\t\t\t\tcontinue\n\t\t\t}\n\t\t\tprocessDecl(declId{fi, di}, \"\")"),
+ ("decls_mark_after_deps", "C07", "interface.go", "\t\tgenerated[id] = true\n\n\t\tfor _, dep := range declDeps[id] {\n\t\t\tdepid, ok := nameDecls[dep]\n\t\t\tif ok {\n\t\t\t\tprocessDecl(depid, dep)\n\t\t\t}\n\t\t}\n", "\t\tfor _, dep := range declDeps[id] {\n\t\t\tdepid, ok := nameDecls[dep]\n\t\t\tif ok && depid != id {\n\t\t\t\tprocessDecl(depid, dep)\n\t\t\t}\n\t\t}\n\t\tgenerated[id] = true\n"),
+ ("filterimports_drops", "C04", "interface.go", "\t\tdefault:\n\t\t\tnonImports = append(nonImports, d)", "\t\tdefault:\n\t\t\tif len(nonImports) < 1000 {\n\t\t\t\tnonImports = append(nonImports, d)\n\t\t\t}"),
+ ("coqtype_ptr_dep", "C04", "types.go", "\tcase *ast.StarExpr:\n\t\treturn ctx.ptrType()", "\tcase *ast.StarExpr:\n\t\tif pointee, ok := e.X.(*ast.Ident); ok {\n\t\t\tctx.dep.addDep(pointee.Name)\n\t\t}\n\t\treturn ctx.ptrType()"),
+ ("translate_skip_empty", "C17", "cmd/goose/main.go", "\t\t\tif !ignoreErrors {\n\t\t\t\tcontinue\n\t\t\t}", "\t\t\tif !ignoreErrors || len(f.Decls) == 0 {\n\t\t\t\tcontinue\n\t\t\t}"),
  ("testgen_go_star", "C18", "cmd/test_gen/main.go", "(?:test)(?P<name>[[:alnum:]]+)(?:\\(.*)`)", "(?:test)(?P<name>[[:alnum:]]*)(?:\\(.*)`)"),
  ("testgen_coq_skips_less", "C18", "cmd/test_gen/main.go", "\t\t\tif strings.HasSuffix(file.Name(), \"~\") ||\n\t\t\t\tstrings.HasSuffix(file.Name(), \".gold.v\") ||\n\t\t\t\tstrings.HasSuffix(file.Name(), \"_test.go\") {\n\t\t\t\tcontinue\n\t\t\t}\n\n\t\t\tf, err := os.Open(path.Join(srcDir, file.Name()))\n\t\t\tif err != nil {\n\t\t\t\tpanic(err)\n\t\t\t}\n\n\t\t\tfmt.Fprintf(out, \"(* %s *)", "\t\t\tif strings.HasSuffix(file.Name(), \"~\") ||\n\t\t\t\tstrings.HasSuffix(file.Name(), \".gold.v\") {\n\t\t\t\tcontinue\n\t\t\t}\n\n\t\t\tf, err := os.Open(path.Join(srcDir, file.Name()))\n\t\t\tif err != nil {\n\t\t\t\tpanic(err)\n\t\t\t}\n\n\t\t\tfmt.Fprintf(out, \"(* %s *)"),
 ]
